@@ -18,8 +18,10 @@ Vals2 == {"", "1"}
 
 \* prefix pairs: empty prefix, 0x00 / 0xff boundaries, prefix-of-one-another, adjacent ranges, nested table
 Cfg(a, b, n) == [p1 |-> a, p2 |-> b, nested |-> n]
-Cfgs7 == << Cfg(<<>>, kA, FALSE), Cfg(k0, kA, FALSE), Cfg(kA, kAF, FALSE), Cfg(kAF, kB, FALSE),
-            Cfg(kF, kFF, FALSE), Cfg(kFF, kA, FALSE), Cfg(kA, <<Ba, Ba>>, TRUE) >>
+Cfgs8 == << Cfg(<<>>, kA, FALSE), Cfg(k0, kA, FALSE), Cfg(kA, kAF, FALSE), Cfg(kAF, kB, FALSE),
+            Cfg(kF, kFF, FALSE), Cfg(kFF, kA, FALSE), Cfg(kA, <<Ba, Ba>>, TRUE),
+            \* nested table whose own and parent prefixes do not commute ("a" o "\xff" # "\xff" o "a")
+            Cfg(kA, kAF, TRUE) >>
 
 TProbe == <<kE, kA, kAF, kF, k0, <<Ba, Ba>>, kFF, kB, <<Ba, BF, BF>>>>
 TIterPrefixes == {<<>>, kA, kAF, kF}
